@@ -3,6 +3,7 @@
 package data_model
 
 import (
+	"github.com/VKCOM/statshouse/internal/format"
 	v "github.com/VKCOM/statshouse/internal/zzverif"
 )
 
@@ -65,3 +66,102 @@ func Harness_C22_endOfLOD() {
 	}
 	v.Reach("C22.endOfLOD.end")
 }
+
+var c22QuerySteps = []int64{1, 5, 15, 60, 300, 900, 3600, 4 * 3600, 24 * 3600}
+
+// GetTimescale as a whole for short range queries (UTC offsets, no location): requested step from the
+// table, range of 1..6 steps plus an arbitrary sub-step remainder, ending an arbitrary 0..8 steps before
+// one of the three LOD-switch ages (now, now-52h, now-33d) or now itself, whole-hour UTC offset, screen
+// width 0 or 1..4, extend on/off, metric resolution 1 or 60. The axis strictly increases by exactly the
+// step of the level each point belongs to, every point is aligned to its level's step, level steps come
+// from the table and never grow toward the present, the point count is bounded, the requested range is
+// covered from the reported start index to the end, and the per-level ranges of GetLODs are contiguous
+// and coincide with the points.
+func c22Timescale(step int64, maxSteps int64) {
+	now := v.NondetIntRange(1_600_000_000, 1_700_000_000)
+	edge := []int64{0, 52*3600 - 2, 33*86400 - 120}[v.Choice(3)]
+	back := v.NondetIntRange(0, 8*step)
+	end := now - edge + 4*step - back
+	v.Assume(end <= now+step)
+	k := v.NondetIntRange(1, maxSteps)
+	r := v.NondetIntRange(0, step-1)
+	start := end - k*step - r
+	args := GetTimescaleArgs{Start: start, End: end, Step: step, TimeNow: now, Mode: RangeQuery}
+	args.UTCOffset = 3600 * v.NondetIntRange(-12, 14)
+	args.Extend = v.NondetBool()
+	if v.NondetBool() {
+		args.ScreenWidth = v.NondetIntRange(1, 4)
+	}
+	metric := &format.MetricMetaValue{Resolution: []int{1, 60}[v.Choice(2)]}
+	args.QueryStat.Add(metric, 0)
+	ts, err := GetTimescale(args)
+	v.Assert("C22.ts.no_error", err == nil)
+	if err != nil || len(ts.Time) == 0 {
+		v.Assert("C22.ts.empty_axis_only_without_error", err != nil)
+		return
+	}
+	n := len(ts.Time)
+	v.Assert("C22.ts.point_count_bounded", n <= maxPoints+3)
+	total := 0
+	prevStep := int64(1 << 40)
+	idx := 0
+	lastStep := int64(0)
+	for _, lod := range ts.LODs {
+		inTable := false
+		for _, s := range c22Steps {
+			inTable = inTable || s == lod.Step
+		}
+		v.Assert("C22.ts.level_step_from_table", inTable)
+		v.Assert("C22.ts.levels_get_finer_toward_present", lod.Step < prevStep)
+		v.Assert("C22.ts.level_not_finer_than_requested", lod.Step >= step || lod.Step >= int64(metric.Resolution))
+		prevStep = lod.Step
+		v.Assert("C22.ts.level_nonempty", lod.Len > 0)
+		for j := 0; j < lod.Len && idx < n; j++ {
+			t := ts.Time[idx]
+			v.Assert("C22.ts.point_aligned_to_its_step", (t+args.UTCOffset)%lod.Step == 0)
+			if idx+1 < n {
+				v.Assert("C22.ts.consecutive_points_differ_by_level_step", ts.Time[idx+1] == t+lod.Step)
+			}
+			idx++
+		}
+		total += lod.Len
+		lastStep = lod.Step
+	}
+	v.Assert("C22.ts.levels_account_for_all_points", total == n)
+	sx := ts.StartX
+	// sx == n: the axis is empty (Timescale.Empty) - no whole point of the level starts inside the range
+	v.Assert("C22.ts.start_index_in_range", sx >= 0 && sx <= n)
+	if sx == n {
+		v.Assert("C22.ts.empty_axis_only_when_no_point_starts_in_range", ts.Time[n-1] < start)
+		v.Reach("C22.ts.empty_axis")
+	}
+	if sx >= 0 && sx < n {
+		if args.Extend {
+			// extend adds one point on each side: the start index may sit one whole step before the range
+			v.Assert("C22.ts.start_covered_extend", ts.Time[sx] <= start && start < ts.Time[sx]+2*ts.LODs[0].Step)
+		} else {
+			v.Assert("C22.ts.start_covered", sx >= 1 && ts.Time[sx-1] < start && start <= ts.Time[sx])
+		}
+	}
+	v.Assert("C22.ts.end_covered", ts.Time[n-1]+lastStep >= end)
+	lods := ts.GetLODs(metric, 0)
+	v.Assert("C22.ts.one_storage_range_per_level", len(lods) == len(ts.LODs))
+	if len(lods) == len(ts.LODs) {
+		at := 0
+		for i, l := range lods {
+			v.Assert("C22.ts.storage_range_starts_at_its_first_point", l.FromSec == ts.Time[at] && l.StepSec == ts.LODs[i].Step)
+			at += ts.LODs[i].Len
+			if i+1 < len(lods) {
+				v.Assert("C22.ts.storage_ranges_contiguous", l.ToSec == lods[i+1].FromSec)
+			} else {
+				v.Assert("C22.ts.last_storage_range_ends_after_last_point", l.ToSec == ts.Time[n-1]+l.StepSec)
+			}
+		}
+	}
+	if len(ts.LODs) > 1 {
+		v.Reach("C22.ts.two_levels")
+	}
+	v.Reach("C22.ts.end")
+}
+
+func Harness_C22_timescale_short() { c22Timescale(c22QuerySteps[v.Choice(len(c22QuerySteps))], 4) }
